@@ -69,6 +69,23 @@ def reset_fields(prog, f):
     return done
 
 
+def first_buffer_byte(f, steps):
+    """the origin is element 0 of the request buffer `self.__buf__`"""
+    if not steps or steps[-1][0] != "arg":
+        return False
+    projs = steps[-1][2]
+    if not any(pr[0] == "f" and pr[2] == "__buf__" for pr in projs):
+        return False
+    idx = [pr for pr in projs if pr[0] in ("i", "ci")]
+    if len(idx) != 1:
+        return False
+    pr = idx[0]
+    if pr[0] == "ci":
+        return pr[1] == 0
+    sd = f.single_def(pr[1])
+    return bool(sd) and sd[2] == "assign" and sd[3]["r"][0] == "use" and sd[3]["r"][1][0] == "k" and guards.const_int(sd[3]["r"][1][1]) == 0
+
+
 def c05a(ck, prog):
     R = "C05-a EXHAUSTIVE reset"
     targets = [
@@ -110,12 +127,15 @@ def c05a(ck, prog):
     for bb in resets:
         for fa in guards.facts_at(f, prog, bb):
             if fa.kind == "cmp":
-                conds.add("%s %s %s" % (guards.describe_origin(f, fa.lhs), fa.op, guards.describe_origin(f, fa.rhs)))
+                lhs = guards.describe_origin(f, fa.lhs)
+                if first_buffer_byte(f, fa.lhs):
+                    lhs = "__buf__[0]"
+                conds.add("%s %s %s" % (lhs, fa.op, guards.describe_origin(f, fa.rhs)))
             elif fa.kind in ("boolcall",):
                 conds.add("%s=%s" % (fa.call.name, fa.truth))
             elif fa.kind == "variant" and not getattr(fa, "derived", None) and not (fa.steps and fa.steps[-1][0] == "call" and fa.steps[-1][1].name == "next"):
                 conds.add("match:%s" % sorted(map(str, fa.allowed or [])))
-    allowed = [c for c in conds if re.fullmatch(r".*__buf__.* Ne const 0|.* Ne const 0", c)]
+    allowed = [c for c in conds if c == "__buf__[0] Ne const 0"]
     other = [c for c in conds if c not in allowed]
     ok = not other
     ck.ob(R, "Request::clear:guard", ok, f.loc(None), "" if ok else "Request::clear() performs its resets only under %r: a request that does not satisfy it leaks into the next one" % sorted(other), how="only condition: first buffer byte != 0 (nothing was read => nothing to reset)")
